@@ -91,7 +91,8 @@ def plans_for(ctx, c, r0, pairs):
         plans.append(('fiemap-EOPNOTSUPP', [f'fail ioctl fiemap * {E["EOPNOTSUPP"]}']))
         plans.append(('fiemap-EOPNOTSUPP+short', [f'fail ioctl fiemap * {E["EOPNOTSUPP"]}', f'clamp copy_file_range D/f * 1 5']))
     if ctx.quick and len(plans) > 9:
-        keep = plans[:2] + [p for p in plans if p[0] in ('short-then-error', 'short-then-unsupported')] + rng.sample([p for p in plans[2:] if p[0] not in ('short-then-error', 'short-then-unsupported')], 5)
+        always = ('short-then-error', 'short-then-unsupported', 'fiemap-EOPNOTSUPP', 'fiemap-EOPNOTSUPP+short')
+        keep = plans[:2] + [p for p in plans[2:] if p[0] in always] + rng.sample([p for p in plans[2:] if p[0] not in always], 5)
         plans = keep
     return plans
 
@@ -164,7 +165,10 @@ def run(ctx):
     # corpus first: the repaired defect F1
     c0 = br.Case(); c0.files = [('f', [('seg', 100, 5)])]; c0.bsize = 1000; c0.no_progress = False; c0.driver = 'parblock'; c0.workers = 2
     c0.reflink = 'auto'; c0.prior = 'absent'; c0.plan = []; c0.extra = []; c0.tag = 'corpus-F1'
-    cases = [c0] + cases
+    # corpus: a sparse source on a file system without extent mapping, block driver (whole-file path must be taken)
+    c1 = br.Case(); c1.files = [('f', br.gen_data(ctx.rng, 70 * br.K + 123, True))]; c1.bsize = 65536; c1.no_progress = False; c1.driver = 'parblock'; c1.workers = 2
+    c1.reflink = 'auto'; c1.prior = 'absent'; c1.plan = []; c1.extra = []; c1.tag = 'corpus-sparse-no-fiemap'
+    cases = [c0, c1] + cases
     with core.Scratch('c05') as root:
         for i, c in enumerate(cases):
             pairs = br.setup_case(root, c)
